@@ -2041,3 +2041,26 @@ Q(name="e2_init_0rtt_scrubs_params", props=["C04", "C14"], func=r"connection/mod
   functions=["Connection::init_0rtt"], pre=lambda c: "true", post=i0_post,
   bounds="every remembered parameter set: what is installed for the 0-RTT phase has no stateless reset token, no initial / original / retry connection IDs and no preferred address - a datagram ending in the previous connection's reset token cannot end the new one, and CID authentication starts from scratch",
   replay=("conn_init_0rtt_native", lambda m: [dict(x=0)]))
+
+
+# ------------------------------------------------------------------ C04: the connection-creating Initial is recorded in the replay filter like every other packet
+def fpd_post(c, p):
+    st = p.p.state
+    if p.p.outcome != "stop":
+        return "true"
+    ins = [x for x in st.calls if re.search(r"Dedup::insert$", x[0])]
+    if len(ins) != 1:
+        return "false"
+    recv, num = ins[0][1][0], ins[0][1][1]
+    # the filter of the Initial space, told about THIS packet number, before the packet is processed
+    ok = recv[0] == "ref" and "'SpaceId', 0)" in str(recv[1]) and str(recv[1]).endswith(".%d" % c.field("connection/spaces.rs", "PacketSpace", "dedup")) and num[0] == "val"
+    if not ok:
+        return "false"
+    return eq(num[1].t, c.inp("_5", BV64))
+
+
+Q(name="e2_first_packet_dedup", props=["C04"], func=r"connection/mod\.rs:\d+:1: \d+:16>::handle_first_packet$",
+  pure=[r"IndexMut<SpaceId>>::index_mut$"], stop_at=[r"on_packet_authenticated$"], check_stop=True, allowed_panics=r"attempt to compute|unreachable",
+  functions=["Connection::handle_first_packet (up to on_packet_authenticated)"], pre=lambda c: eq(c.inp("*_1.%d#discr" % c.field("connection/mod.rs", "Connection", "state"), I64), bv(0)), post=fpd_post,
+  bounds="every first Initial: before it counts as authenticated and is processed, its packet number is inserted into the Initial space's duplicate filter - a replay of the connection-creating datagram, routed to the connection later, is then recognised like any other duplicate",
+  replay=("conn_first_packet_replay_native", lambda m: [dict(pn=0), dict(pn=3)]))
